@@ -102,9 +102,60 @@ def handle_pair(case):
     return {"obs": obs}
 
 
+@dataclass(eq=False)
+class Employee:
+    name: str
+    department: int
+    active: bool = True
+
+
+@dataclass(eq=False)
+class Department:
+    id: int
+
+
+def handle_nested(case):
+    """the(...) nested in an enclosing query and correlated with it (NestedThe.tla): binding b of the enclosing
+    variable has counts[b] solutions. Observed per next(): the row (binding, binding whose solution was used), an
+    exception class, or stop."""
+    counts = case["counts"]
+    deps = [Department(b + 1) for b in range(len(counts))]
+    emps = []
+    for b, c in enumerate(counts):
+        for j in range(c):
+            emps.append(Employee(f"e{b + 1}_{j}", b + 1))
+    emps.append(Employee("nobody", 99))
+    if case["variant"] % 2:
+        emps.reverse()
+    department = let(Department, deps, name="department")
+    employee = let(Employee, emps, name="employee")
+    head = the(entity(employee, employee.department == department.id))
+    name = let(str, [e.name for e in emps], name="name")
+    if case["variant"] < 2:
+        q = an(set_of([department, name], department.id >= 0, head.name == name))
+    else:
+        q = an(set_of([name, department], name == head.name))
+    row = lambda r: ["row", r[department].id, int(r[name][1:].split("_")[0])]
+    obs = []
+    it = iter(q.evaluate())
+    for _ in range(len(counts) + 2):
+        try:
+            r = next(it)
+        except StopIteration:
+            obs.append(["stop"])
+            break
+        except Exception as ex:
+            obs.append([type(ex).__name__])
+            break
+        obs.append(row(r))
+    return {"obs": obs}
+
+
 def handle(case):
     if case.get("form") == "pair":
         return handle_pair(case)
+    if case.get("form") == "nested":
+        return handle_nested(case)
     kind, lo, hi, n, form = case["kind"], case["lo"], case["hi"], case["n"], case["form"]
     obs = []
     try:
